@@ -33,6 +33,7 @@ class Exporter:
         self.procs: dict[int, tuple[str, str]] = {}  # id(loopir proc) -> (name, sexp)
         self.defs: list[str] = []
         self._keep = []
+        self.erase_flags = False  # print is_window / par as false (fields Core.Sem never reads)
 
     # ------------------------------------------------------------ names
     def sym(self, s: Sym) -> str:
@@ -104,7 +105,7 @@ class Exporter:
         if isinstance(s, LoopIR.If):
             return "(if %s %s %s)" % (self.expr(s.cond), self.stmts(s.body), self.stmts(s.orelse))
         if isinstance(s, LoopIR.For):
-            par = "true" if isinstance(s.loop_mode, LoopIR.Par) else "false"
+            par = "true" if isinstance(s.loop_mode, LoopIR.Par) and not self.erase_flags else "false"
             return "(for %s %s %s %s %s)" % (self.sym(s.iter), self.expr(s.lo), self.expr(s.hi), self.stmts(s.body), par)
         if isinstance(s, LoopIR.Alloc):
             shape = s.type.shape() if s.type.is_tensor_or_window() else []
@@ -130,7 +131,7 @@ class Exporter:
         if t.is_real_scalar():
             return "scalar"
         if isinstance(t, T.Tensor):
-            return "(tensor (%s) %s)" % (" ".join(self.expr(d) for d in t.hi), "true" if t.is_window else "false")
+            return "(tensor (%s) %s)" % (" ".join(self.expr(d) for d in t.hi), "true" if t.is_window and not self.erase_flags else "false")
         raise Unsupported("argument type %s" % t)
 
     def proc_sexp(self, p) -> str:
@@ -152,7 +153,9 @@ class Exporter:
 # ---------------------------------------------------------------------- interpreter client
 class Interp:
     def __init__(self):
-        if not os.path.exists(INTERP):
+        src = common.COQ / "Core" / "ocaml" / "interp.ml"
+        stale = os.path.exists(INTERP) and src.exists() and src.stat().st_mtime > os.path.getmtime(INTERP)
+        if not os.path.exists(INTERP) or stale:
             rc, out = common.sh(["bash", "extract.sh"], cwd=common.COQ / "Core", timeout=600)
             if rc != 0:
                 raise RuntimeError("cannot build the extracted interpreter: " + out[-500:])
@@ -175,6 +178,9 @@ class Interp:
 
     def run(self, name: str, inp: str) -> str:
         return self.ask("(run %s %s)" % (name, inp))
+
+    def wf(self, name: str) -> bool:
+        return self.ask("(wf %s)" % name) == "wf"
 
     def close(self):
         try:
